@@ -55,10 +55,14 @@ const (
 	ReadFuture
 	ReadListErr
 	ReadChunkErr
+	// ReadSlowOK: the listing is answered correctly, but only after SlowRead of simulated time and without
+	// regard to the caller's deadline (an in-process DA implementation, or a client library that does not
+	// watch the context): a stalled dependency that finally delivers.
+	ReadSlowOK
 	numReadKinds
 )
 
-var readKindNames = []string{"ok", "not-found-err", "future", "list-err", "chunk-err"}
+var readKindNames = []string{"ok", "not-found-err", "future", "list-err", "chunk-err", "slow-ok"}
 
 func (k ReadKind) String() string { return readKindNames[k] }
 
@@ -134,12 +138,16 @@ type SimDA struct {
 	ReadScript   map[uint64][]ReadOutcome
 	failChunk    map[uint64]int
 	failFlavor   map[uint64]int
+	deaf         map[uint64]bool
 	inflight     int
 	chunkIdx     map[uint64]int
 	// AutoAdvance: with no script entry, every accepted submit closes the height.
 	AutoAdvance bool
 	// Outage: with no script entry, every submission fails with a generic error (the DA node is unavailable).
 	Outage bool
+	// OutageKinds, when set, are the (failing) outcomes an outage answers with, in rotation.
+	OutageKinds []SubmitKind
+	outageN     int
 	// ReadOutage: with no script entry, every listing fails with a generic error (readers cannot reach the DA node).
 	ReadOutage bool
 	// MaxBlobBytes > 0 models a DA with a total-size limit: blobs beyond it are not taken (prefix).
@@ -155,6 +163,8 @@ type SimDA struct {
 	// spin guard: a caller that issues thousands of calls without simulated time passing is busy-looping.
 	// Its calls are then parked until its context ends, so that the bubble can quiesce and the harness
 	// can report what the call log shows.
+	// SlowRead is how long a ReadSlowOK listing takes (default 31 s: longer than the retriever's per-request timeout).
+	SlowRead time.Duration
 	// Latency, when non-zero, is slept (simulated time, no lock held) at the start of every call (Engine N).
 	Latency time.Duration
 
@@ -197,6 +207,7 @@ func NewSimDA() *SimDA {
 		ReadScript: map[uint64][]ReadOutcome{},
 		failChunk:  map[uint64]int{},
 		failFlavor: map[uint64]int{},
+		deaf:       map[uint64]bool{},
 		chunkIdx:   map[uint64]int{},
 		Stats:      map[string]int{},
 	}
@@ -340,6 +351,10 @@ func (d *SimDA) submit(ctx context.Context, by string, epoch int, blobs [][]byte
 	out := SubmitOutcome{Kind: SubAccept, Advance: d.AutoAdvance}
 	if d.Outage {
 		out = SubmitOutcome{Kind: SubGeneric}
+		if len(d.OutageKinds) > 0 {
+			out.Kind = d.OutageKinds[d.outageN%len(d.OutageKinds)]
+			d.outageN++
+		}
 	}
 	if len(d.SubmitScript) > 0 {
 		out = d.SubmitScript[0]
@@ -470,6 +485,7 @@ func (d *SimDA) getIDs(ctx context.Context, by string, epoch int, height uint64)
 	}
 	call := DACall{Op: "getids", By: by, Epoch: epoch, Height: height}
 	delete(d.failChunk, height)
+	delete(d.deaf, height)
 	d.chunkIdx[height] = 0
 	if height > d.cur {
 		// a height that does not exist yet is always "from the future", whatever the script says
@@ -509,6 +525,17 @@ func (d *SimDA) getIDs(ctx context.Context, by string, epoch int, height uint64)
 	case ReadChunkErr:
 		d.failChunk[height] = out.Chunk
 		d.failFlavor[height] = out.Flavor
+	case ReadSlowOK:
+		slow := d.SlowRead
+		if slow == 0 {
+			slow = 31 * time.Second
+		}
+		d.inflight++
+		d.mu.Unlock()
+		time.Sleep(slow)
+		d.mu.Lock()
+		d.inflight--
+		d.deaf[height] = true
 	}
 	recs := d.heights[height]
 	if len(recs) == 0 {
@@ -537,11 +564,17 @@ func (d *SimDA) getIDs(ctx context.Context, by string, epoch int, height uint64)
 
 func (d *SimDA) get(ctx context.Context, by string, epoch int, ids [][]byte) ([][]byte, error) {
 	d.spinGuard(ctx)
-	if err := ctx.Err(); err != nil {
-		return nil, err
-	}
 	d.mu.Lock()
 	defer d.mu.Unlock()
+	deaf := false // a fetch whose listing was a slow-ok one: this DA does not watch the caller's deadline
+	if len(ids) > 0 {
+		if h, _, err := coreda.SplitID(ids[0]); err == nil {
+			deaf = d.deaf[h]
+		}
+	}
+	if err := ctx.Err(); err != nil && !deaf {
+		return nil, err
+	}
 	call := DACall{Op: "get", By: by, Epoch: epoch, Accepted: len(ids)}
 	if len(ids) > 0 {
 		h, _, err := coreda.SplitID(ids[0])
